@@ -708,3 +708,84 @@ package websocket
 //@ tags C14
 //@ requires copts != nil
 //@ ensures [params] result == specOptsHeader(copts.clientNoContextTakeover, copts.serverNoContextTakeover)
+// ---------------------------------------------------------------------------
+// accept.go: opening handshake, server side (C11, C12)
+
+//@ func headerContainsTokenIgnoreCase
+//@ tags C11 C13
+//@ opt reveal=specHasTokenQ
+//@ ensures [has] result == specHasTokenQ(h, key, token)
+//@ loop 1 decreases specTokCount(h, key) - rangeindex
+//@ loop 1 invariant [idx] -1 <= rangeindex && rangeindex < specTokCount(h, key)
+//@ loop 1 invariant [none-so-far] forall(0, rangeindex+1, func(i int) bool { return !specEqFold(specTok(h, key, i), token) })
+
+//@ func verifyClientRequest
+//@ tags C11
+//@ requires r != nil && w != nil
+//@ ensures [iff] (result1 == nil) == specValidUpgrade(r)
+//@ ensures [ok-code] result1 == nil ==> errCode == 0
+//@ ensures [error-status] result1 != nil ==> errCode >= 400 && errCode <= 599
+
+//@ func authenticateOrigin
+//@ tags C12
+//@ opt reveal=specPatternAuthorises
+//@ requires r != nil
+//@ ensures [iff] (result == nil) == specOriginAuthorised(r, originHosts)
+//@ loop 1 decreases len(originHosts) - rangeindex
+//@ loop 1 invariant [idx] -1 <= rangeindex && rangeindex < len(originHosts) && u != nil && u.Host == specURLHost(specHdrGet(r.Header, "Origin")) && specURLOK(specHdrGet(r.Header, "Origin")) && specHdrGet(r.Header, "Origin") != "" && !specEqFold(r.Host, u.Host)
+//@ loop 1 invariant [none-so-far] forall(0, rangeindex+1, func(j int) bool { return specPatOK(specLower(originHosts[j]), specLower(u.Host)) && !specMatch(specLower(originHosts[j]), specLower(u.Host)) })
+
+//@ func secWebSocketAccept
+//@ assumed SHA-1 and base64 are not modelled: the function is taken to compute base64(SHA-1(key ++ GUID)); a bounded differential check against an independent composition stands in (see DESIGN.md)
+//@ ensures result == specAcceptKey(secWebSocketKey)
+
+//@ func selectSubprotocol
+//@ tags C11
+//@ opt reveal=specOffered
+//@ requires r != nil
+//@ ensures [none] result == "" ==> forall(0, len(subprotocols), func(i int) bool { return !specOffered(r.Header, subprotocols[i]) }) || exists(0, specTokCount(r.Header, "Sec-WebSocket-Protocol"), func(j int) bool { return specTok(r.Header, "Sec-WebSocket-Protocol", j) == "" })
+//@ ensures [first-preferred] result != "" ==> exists(0, len(subprotocols), func(i int) bool { return specOffered(r.Header, subprotocols[i]) && specEqFold(subprotocols[i], result) && forall(0, i, func(k int) bool { return !specOffered(r.Header, subprotocols[k]) }) })
+//@ loop 1 decreases len(subprotocols) - rangeindex
+//@ loop 1 invariant [idx] -1 <= rangeindex && rangeindex < len(subprotocols)
+//@ loop 1 invariant [none-so-far] forall(0, rangeindex+1, func(k int) bool { return !specOffered(r.Header, subprotocols[k]) })
+//@ loop 2 decreases specTokCount(r.Header, "Sec-WebSocket-Protocol") - rangeindex
+//@ loop 2 invariant [idx] -1 <= rangeindex && rangeindex < specTokCount(r.Header, "Sec-WebSocket-Protocol")
+//@ loop 2 invariant [outer] forall(0, len(subprotocols), func(k int) bool { return true })
+//@ loop 2 invariant [def] specOffered(r.Header, sp) == specOffered(r.Header, sp)
+//@ loop 2 invariant [none-so-far] forall(0, rangeindex+1, func(j int) bool { return !specEqFold(sp, specTok(r.Header, "Sec-WebSocket-Protocol", j)) })
+
+//@ func verifySubprotocol
+//@ tags C13
+//@ opt reveal=specRequested
+//@ requires resp != nil
+//@ ensures [iff] (result == nil) == (specHdrGet(resp.Header, "Sec-WebSocket-Protocol") == "" || specRequested(subprotos, specHdrGet(resp.Header, "Sec-WebSocket-Protocol")))
+//@ loop 1 decreases len(subprotos) - rangeindex
+//@ loop 1 invariant [idx] -1 <= rangeindex && rangeindex < len(subprotos) && proto == specHdrGet(resp.Header, "Sec-WebSocket-Protocol") && proto != ""
+//@ loop 1 invariant [none-so-far] forall(0, rangeindex+1, func(i int) bool { return !specEqFold(subprotos[i], proto) })
+
+//@ func verifyServerResponse
+//@ tags C13
+//@ requires opts != nil && resp != nil
+//@ ensures [valid-only] result1 == nil ==> specValidResponse(opts.Subprotocols, secWebSocketKey, resp)
+//@ ensures [rejects] !specValidResponse(opts.Subprotocols, secWebSocketKey, resp) ==> result1 != nil && result0 == nil
+//@ ensures [extensions] specValidResponse(opts.Subprotocols, secWebSocketKey, resp) && specExtCount(resp.Header) > 0 ==> ((result1 == nil) == (copts != nil && specExtCount(resp.Header) == 1 && specExtName(resp.Header, 0) == "permessage-deflate" && specRespParamsOK(resp.Header)))
+//@ ensures [no-extensions] specValidResponse(opts.Subprotocols, secWebSocketKey, resp) && specExtCount(resp.Header) == 0 ==> result1 == nil && result0 == nil
+
+//@ func newConn
+//@ assumed the constructor (allocations, goroutine start, finalizer) is not under contract; only the role and the negotiated options of the result are used
+//@ ensures result != nil && gvcFresh(result) && result.client == cfg.client && result.copts == cfg.copts && result.subprotocol == cfg.subprotocol
+
+//@ func accept
+//@ tags C11 C12 C14
+//@ requires w != nil && r != nil && ghresp(w).status == 0 && !ghresp(w).hijacked
+//@ modifies ghresp(w).status, ghresp(w).hijacked, mapof(ghhdr(specRespHeader(w)).vals)
+//@ ensures [upgrade-only-valid] {C11} err == nil ==> specValidUpgrade(r)
+//@ ensures [upgrade-only-authorised] {C12} err == nil && !(opts != nil && opts.InsecureSkipVerify) ==> specOriginAuthorised(r, specOriginPatterns(opts))
+//@ ensures [101] {C11} err == nil ==> ghresp(w).status == 101 && ghresp(w).hijacked && result0 != nil
+//@ ensures [accept-key] {C11} err == nil ==> ghhdr(specRespHeader(w)).vals["Sec-WebSocket-Accept"] == specAcceptKey(specTrim(specHdrVal(r.Header, "Sec-WebSocket-Key", 0)))
+//@ ensures [error-status] {C11 C12} err != nil ==> ghresp(w).status >= 400 && ghresp(w).status <= 599 && result0 == nil
+//@ ensures [not-taken-over] {C11 C12} !specValidUpgrade(r) ==> err != nil && !ghresp(w).hijacked
+//@ ensures [ext-echo] {C14} err == nil && result0.copts != nil ==> ghhdr(specRespHeader(w)).vals["Sec-WebSocket-Extensions"] == specOptsHeader(result0.copts.clientNoContextTakeover, result0.copts.serverNoContextTakeover)
+//@ ensures [compression-only-if-enabled] {C14} err == nil && (opts == nil || opts.CompressionMode == CompressionDisabled) ==> result0.copts == nil
+//@ ensures [forbidden] {C12} specValidUpgrade(r) && !(opts != nil && opts.InsecureSkipVerify) && !specOriginAuthorised(r, specOriginPatterns(opts)) ==> err != nil && ghresp(w).status == 403 && !ghresp(w).hijacked
+
